@@ -2,64 +2,12 @@
 C03 — source tie.  `OdcGeo/Gen/C03.lean` is regenerated from `/repo/odc/geo/{math.py,overlap.py}` by
 `tools/py2lean.py` on every run of `check.py C03`; the theorems `tie_*` prove each regenerated definition equal to the
 hand model of `OdcGeo/Model/C03.lean` for ALL inputs (rational arithmetic on both sides).
+
+The theorems live in OdcGeo/Props/GenC03/*.lean, one compilation unit per tied function or small group; this file only
+imports them all (`lake build OdcGeo.Props.GenC03`).
 -/
-import OdcGeo.Gen.C03
-import OdcGeo.Gen.Tie
-import OdcGeo.Lemmas.GenC03
-import OdcGeo.Props.C03
-
-namespace OdcGeo.C03
-open OdcGeo.Gen OdcGeo.C17
-
-/-! ## ties -/
-
-theorem tie_split_float (x : Rat) : Gen.C03.split_float x = splitFloat x := by
-  tie_auto [Gen.C03.split_float, splitFloat, py_fmod_one]
-
-theorem tie_maybe_int (x tol : Rat) : Gen.C03.maybe_int x tol = maybeInt x tol := by
-  tie_auto [Gen.C03.maybe_int, maybeInt, tie_split_float, py_absR_eq, py_trunc_eq, trunc_splitFloat_whole]
-
-theorem tie_is_almost_int (x tol : Rat) : Gen.C03.is_almost_int x tol = isAlmostInt x tol := by
-  tie_auto [Gen.C03.is_almost_int, isAlmostInt, py_fmod_one, py_absR_eq]
-
-/-- `_pick_read_scale(scale, tol)` -/
-theorem tie_pick_read_scale (scale tol : Rat) : Gen.C03.pick_read_scale scale tol = pickReadScale scale tol := by
-  tie_auto [Gen.C03.pick_read_scale, pickReadScale, tie_maybe_int, py_trunc_eq]
-
-/-- `compute_axis_overlap(Ns, Nd, s, t)` -/
-theorem tie_compute_axis_overlap (Ns Nd : Int) (s t : Rat) :
-    Gen.C03.compute_axis_overlap Ns Nd s t = axisOverlap Ns Nd s t := by
-  tie_auto [Gen.C03.compute_axis_overlap, axisOverlap, axisPos]
-
-/-! ## headline theorems of `Props/C03.lean`, transferred to the regenerated definitions -/
-
-/-- `axis_error_iff` for the source `compute_axis_overlap` -/
-theorem gen_axis_error_iff (Ns Nd : Int) (s t : Rat) :
-    (∃ e, Gen.C03.compute_axis_overlap Ns Nd s t = .error e) ↔ s = 0 := by
-  rw [tie_compute_axis_overlap]; exact axis_error_iff Ns Nd s t
-
-/-- `axis_within` for the source `compute_axis_overlap` -/
-theorem gen_axis_within (Ns Nd : Int) (s t : Rat) (hNs : 0 ≤ Ns) (hNd : 0 ≤ Nd) (r : NSlice × NSlice)
-    (h : Gen.C03.compute_axis_overlap Ns Nd s t = .ok r) :
-    (0 ≤ r.1.start ∧ r.1.start ≤ r.1.stop ∧ r.1.stop ≤ Ns) ∧
-    (0 ≤ r.2.start ∧ r.2.start ≤ r.2.stop ∧ r.2.stop ≤ Nd) := by
-  rw [tie_compute_axis_overlap] at h; exact axis_within Ns Nd s t hNs hNd r h
-
-/-- `axis_dst_covers` (never drops a needed destination pixel) for the source `compute_axis_overlap` -/
-theorem gen_axis_dst_covers (Ns Nd : Int) (s t : Rat) (r : NSlice × NSlice)
-    (h : Gen.C03.compute_axis_overlap Ns Nd s t = .ok r) (d : Int) (hd0 : 0 ≤ d) (hdN : d < Nd)
-    (hx0 : 0 ≤ s * ((d : Rat) + 1 / 2) + t) (hxN : s * ((d : Rat) + 1 / 2) + t < Ns) :
-    r.2.start ≤ d ∧ d < r.2.stop := by
-  rw [tie_compute_axis_overlap] at h; exact axis_dst_covers Ns Nd s t r h d hd0 hdN hx0 hxN
-
-/-- `read_shrink_pos_int` for the source `_pick_read_scale` -/
-theorem gen_read_shrink_pos_int (scale tol : Rat) (rs : Int) (h : Gen.C03.pick_read_scale scale tol = .ok rs) :
-    1 ≤ rs := by
-  rw [tie_pick_read_scale] at h; exact read_shrink_pos_int scale tol rs h
-
-/-- `read_shrink_bound` for the source `_pick_read_scale` -/
-theorem gen_read_shrink_bound (scale tol : Rat) (rs : Int) (h : Gen.C03.pick_read_scale scale tol = .ok rs) :
-    ((rs : Rat) ≤ max 1 scale ∨ (rs : Rat) - scale < tol) ∧ scale - 1 < rs := by
-  rw [tie_pick_read_scale] at h; exact read_shrink_bound scale tol rs h
-
-end OdcGeo.C03
+import OdcGeo.Props.GenC03.SplitFloat
+import OdcGeo.Props.GenC03.MaybeInt
+import OdcGeo.Props.GenC03.IsAlmostInt
+import OdcGeo.Props.GenC03.PickReadScale
+import OdcGeo.Props.GenC03.ComputeAxisOverlap
